@@ -139,9 +139,14 @@ func heredocText(r *lib.Rand, eg *lib.ExprGen, crlf bool) string {
 	texts := []string{"hello", "two words", "é", "e\u0301", "👍🏽 ok", "tab\there", "$", "%", "$${x}", "%%{y}", "\"quoted\"", "back\\slash", "#not a comment", "}", "{", "EOTX", "x EOT", "日本", "~"}
 	openDirs := []string{}
 	lines := r.Intn(5)
+	// the indentation of a flush heredoc is any white space, also multi-byte
+	indentUnit := " "
+	if flush && r.Chance(1, 3) {
+		indentUnit = r.Pick([]string{"\t", "\u00a0", "\u3000", "\u2003"})
+	}
 	for i := 0; i < lines; i++ {
 		if flush || r.Chance(1, 3) {
-			sb.WriteString(strings.Repeat(" ", r.Intn(5)))
+			sb.WriteString(strings.Repeat(indentUnit, r.Intn(5)))
 		}
 		for k := r.Intn(4); k >= 0; k-- {
 			switch r.Intn(8) {
